@@ -23,6 +23,7 @@ type symMap struct {
 	idx     map[string]*mapEntry // concrete keys
 	nsym    int                  // live entries with symbolic keys
 	nlive   int
+	order   int8 // per-map iteration order under permuteMode 2: 0 undecided, 1 insertion order, 2 reverse
 }
 
 func makeMap(kt types.Type, reserve int64) value {
@@ -137,7 +138,30 @@ func (it *symMapIter) next() tuple {
 	if it.m == nil {
 		return tuple{false, nil, nil}
 	}
-	if it.i.path.permute {
+	if it.i.path.permute && it.i.path.permuteTwo {
+		// bounded order space: each map is iterated in insertion order or in reverse insertion order, decided once
+		// per map (a fork) and kept for every later iteration of that map
+		if it.m.order == 0 {
+			live := 0
+			for _, e := range it.m.entries {
+				if e.live {
+					live++
+				}
+			}
+			if live > 1 {
+				it.m.order = int8(1 + it.i.path.choice(2))
+			}
+		}
+		if it.m.order == 2 {
+			for k := len(it.m.entries) - 1; k >= 0; k-- {
+				if e := it.m.entries[k]; e.live && !it.visited[e] {
+					it.visited[e] = true
+					return tuple{true, e.key, e.val}
+				}
+			}
+			return tuple{false, nil, nil}
+		}
+	} else if it.i.path.permute {
 		var rem []*mapEntry
 		for _, e := range it.m.entries {
 			if e.live && !it.visited[e] {
@@ -146,6 +170,9 @@ func (it *symMapIter) next() tuple {
 		}
 		if len(rem) == 0 {
 			return tuple{false, nil, nil}
+		}
+		if len(rem) > 1 && len(it.i.path.stack) > 0 {
+			it.i.path.res.Intrinsics["maprange-fork:"+it.i.path.stack[len(it.i.path.stack)-1].String()]++
 		}
 		e := rem[it.i.path.choice(len(rem))]
 		it.visited[e] = true
